@@ -21,6 +21,7 @@ type envModel struct {
 	diag     []string
 	stdout   []string
 	onceDone map[*value]bool
+	syncMaps map[*value]*omap
 	args     []string
 	fsFail   map[string]bool // paths whose open/create fails
 	nowCount int
@@ -32,7 +33,7 @@ type memFile struct {
 }
 
 func newEnv() *envModel {
-	return &envModel{files: map[string]*memFile{}, onceDone: map[*value]bool{}, fsFail: map[string]bool{}}
+	return &envModel{files: map[string]*memFile{}, onceDone: map[*value]bool{}, fsFail: map[string]bool{}, syncMaps: map[*value]*omap{}}
 }
 
 func (e *envModel) resetPath() {
